@@ -336,6 +336,29 @@ func runConc(p *Plan, tape *simrt.Tape, opt RunOpt) *RunOut {
 			// quiescent only now: the flusher and the collectors have stopped
 			d.RunFsckLoose("after all tasks stopped and Close", true)
 		}
+		if closeErr != nil || d.Viol != nil || p.x("race", 0) == 1 {
+			return
+		}
+		// what was read back before Close must be what a reopened store holds
+		// (nothing acknowledged was left only in memory or lost by the flush
+		// pipeline running next to the writers)
+		quiet := d.Cfg
+		quiet.Flusher = false
+		quiet.GCMs = 0
+		if err := d.OpenWith(quiet); err != nil {
+			cs.fail("conc/reopen-error", "reopen after the concurrent run failed: %v", err)
+			return
+		}
+		for i, h := range cs.hists[fin] {
+			op := Op{K: "get", Key: h.Op.Key}
+			r := d.Call(&op)
+			if r.Err != "" || r.Found != h.Res.Found || (r.Found && !bytes.Equal(r.Val, h.Res.Val)) {
+				cs.fail("conc/reopen-content", "key k%d read %s before Close (found=%v) but after reopen: found=%v val=%s err=%q", h.Op.Key, short(h.Res.Val), h.Res.Found, r.Found, short(r.Val), r.Err)
+				break
+			}
+			_ = i
+		}
+		d.St.Close()
 	})
 	d.fileProbes(fs)
 	out.addFS(fs)
